@@ -5,8 +5,12 @@ package pcrel
 
 // GetTargetAddressLa64 根据 LoongArch PC 和指令参数计算出原始的目标地址
 func GetTargetAddressLa64(pc int64, pc_hi20, pc_lo12 int32) int64 {
-	aluOut := (pc + (int64(pc_hi20) << 12)) &^ 0xFFF
-	targetAddress := aluOut + int64(pc_lo12)
+	// pcalau12i 的 si20 和 addi.d/ld.d 的 si12 都是带符号立即数, 需要符号扩展
+	si20 := int64(pc_hi20) << 44 >> 44
+	si12 := int64(pc_lo12) << 52 >> 52
+
+	aluOut := (pc + (si20 << 12)) &^ 0xFFF
+	targetAddress := aluOut + si12
 	return targetAddress
 }
 
